@@ -1,0 +1,35 @@
+//! Direct entry points to the point-stream to path conversion, the `glyf`
+//! outline-memory carving code and the per-glyph memory metrics, for the
+//! out-of-tree verification harness.
+//!
+//! Compiled only with `--cfg googlefonts_fontations_verif`; adds no behaviour.
+use super::{
+    path::{to_path, ToPathError},
+    pen::{OutlinePen, PathStyle},
+    OutlineGlyph, OutlineKind,
+};
+use raw::{
+    tables::glyf::{PointCoord, PointFlags},
+    types::Point,
+};
+
+pub use super::glyf::verif_hooks::*;
+
+/// `outline::path::to_path` on caller supplied point, flag and contour arrays.
+pub fn points_to_path<C: PointCoord>(
+    points: &[Point<C>],
+    flags: &[PointFlags],
+    contours: &[u16],
+    path_style: PathStyle,
+    pen: &mut impl OutlinePen,
+) -> Result<(), ToPathError> {
+    to_path(points, flags, contours, path_style, pen)
+}
+
+/// The memory metrics computed for a `glyf` outline glyph (`None` for CFF).
+pub fn outline_counts(glyph: &OutlineGlyph) -> Option<OutlineCounts> {
+    match &glyph.kind {
+        OutlineKind::Glyf(_, outline) => Some(OutlineCounts::from_outline(outline)),
+        _ => None,
+    }
+}
